@@ -473,3 +473,10 @@ package types
 //@ func (BigDec).String
 //@   trusted decimal formatting (reads the value only)
 //@   pure_fn
+
+// consensus power of a stake: the stake divided by the power reduction (10^6), truncated
+//@ func TokensToConsensusPower
+//@   props C22,C41
+//@   modifies bigv
+//@   ensures [quotient] result == go_div(old(bigv[tokens.i]), 1000000)
+//@   ensures [bigv-kept] forall p int {bigv[p]} :: isold(p) ==> bigv[p] == old(bigv[p])
